@@ -508,6 +508,37 @@ class Gen:
                 out.append("function %s(%s p) -> int {\n    echo(\"%s\");\n    return p.vm();\n}" % (fn, name, fn))
         return out
 
+    def default_bind_family(self):
+        """Parameterised '= default' constructors: the parameters are bound to the fields of the same name
+        as the constructor's body, i.e. after the class's field initialisers have run (so an initialiser
+        that reads a bound field still sees its default, and a bound field's own initialiser is overwritten)."""
+        r = self.r
+        v1, x, y, z = r.randint(20, 90), r.randint(2, 9), r.randint(2, 9), r.randint(2, 9)
+        k = r.randint(2, 5)
+        fields = ["    public int bal = %d;" % v1, "    public int bonus;", "    public int snap = bonus * %d + 1;" % k,
+                  "    public int twice = bal * 2;"]
+        r.shuffle(fields)
+        order = [f.split()[2].rstrip(";") for f in fields]
+        # values after the initialisers (declaration order), before binding
+        val = dict(bal=0, bonus=0, snap=0, twice=0)
+        for n in order:
+            if n == "bal":
+                val["bal"] = v1
+            elif n == "snap":
+                val["snap"] = val["bonus"] * k + 1
+            elif n == "twice":
+                val["twice"] = val["bal"] * 2
+        src = ["class DfA {\n%s\n    public constructor(int bal, int bonus) -> DfA = default;\n}" % "\n".join(fields),
+               "class DfB extends DfA {\n    public int der = snap + 100;\n    public constructor(int a) -> DfB {\n"
+               "        super(a, a + 1);\n        return this;\n    }\n}"]
+        main = [("DfA d1 = new DfA(%d, %d);" % (x, y), None),
+                ('echo("" + d1.bal + " " + d1.bonus + " " + d1.snap + " " + d1.twice);',
+                 "%d %d %d %d" % (x, y, val["snap"], val["twice"])),
+                ("DfB d2 = new DfB(%d);" % z, None),
+                ('echo("" + d2.bal + " " + d2.bonus + " " + d2.snap + " " + d2.der);',
+                 "%d %d %d %d" % (z, z + 1, val["snap"], val["snap"] + 100))]
+        return src, main
+
     def drop_functions(self):
         """function dropK() -> int { K t = new K(..); echo("dropK"); return 7; }: the local object dies
         because the function returns (its destructor chain runs while the return is in flight)."""
@@ -571,6 +602,14 @@ class Gen:
         def emit(ind, text):
             L.append("    " * ind + text)
 
+        def ov_probe(w, static, ind):
+            """u.ov(w): the overload the analyser picks from w's declared class must be the one that runs"""
+            sig = m.resolve(self.ov, [static])
+            if sig is not None and r.random() < 0.8:
+                emit(ind, "echo(u.ov(%s));" % w)
+                out.append("ov(%s)" % ",".join(sig))
+                out.append(str(len(sig)))
+
         n = r.randint(6, 16)
         depth = 1
         for _ in range(n):
@@ -593,10 +632,27 @@ class Gen:
                     fn, sig, args = self.makes[dyn]
                     src = "%s()" % fn
                 v = self.fresh("o")
-                emit(depth, "%s %s = %s;" % (static, v, src))
+                if r.random() < 0.2:
+                    # declared holding null, assigned afterwards: the variable keeps its declared class
+                    emit(depth, "%s %s = null;" % (static, v))
+                    emit(depth, "%s = %s;" % (v, src))
+                else:
+                    emit(depth, "%s %s = %s;" % (static, v, src))
                 obj = m.construct(dyn, sig, args, out)
                 scopes[-1][v] = dict(static=static, obj=obj, refs=1)
                 allocs += 1
+                if dyn != static:
+                    ov_probe(v, static, depth)
+                continue
+            dead = {v: d for v, d in vs.items() if d["obj"] is None}
+            if dead and allocs < 14 and r.random() < 0.2:
+                # a destroyed variable is assigned again (its declared class is still what overloads see)
+                v = r.choice(sorted(dead))
+                dyn, sig, args, src = new_expr(dead[v]["static"])
+                emit(depth, "%s = %s;" % (v, src))
+                dead[v]["obj"] = m.construct(dyn, sig, args, out)
+                allocs += 1
+                ov_probe(v, dead[v]["static"], depth)
                 continue
             if not live:
                 continue
@@ -684,6 +740,15 @@ class Gen:
                 continue
             if k < 0.94 and allocs < 14:
                 dyn, sig, args, src = new_expr(st)
+                if r.random() < 0.4:
+                    emit(depth, "%s = null;" % v)       # the old object dies here, before the new one exists
+                    release(d["obj"])
+                    d["obj"] = None
+                    emit(depth, "%s = %s;" % (v, src))
+                    d["obj"] = m.construct(dyn, sig, args, out)
+                    allocs += 1
+                    ov_probe(v, st, depth)
+                    continue
                 emit(depth, "%s = %s;" % (v, src))
                 newobj = m.construct(dyn, sig, args, out)
                 release(d["obj"])
@@ -740,6 +805,10 @@ class Gen:
         u = self.build_overloads()
         shows = self.show_functions()
         web, self.web_main = self.generic_web() if self.r.random() < 0.7 else ([], [])
+        if self.r.random() < 0.5:
+            dsrc, dmain = self.default_bind_family()
+            web = web + dsrc
+            self.web_main = self.web_main + dmain
         drops = self.drop_functions()
         main = self.build_main()
         parts = [prelude] + decls + [u, self.BOX] + web + shows + drops + [main]
